@@ -157,8 +157,13 @@ class SqlMonitor:
         writes = [i for i, k in enumerate(kinds) if k == 'WRITE']
         if writes:
             first = writes[0]
-            if any(k == 'COMMIT' for k in kinds[first:]):
-                out.append(('commit-in-failed-call', 'COMMIT after the first write of a call that then failed'))
+            tc = [k for k in kinds[first:] if k in ('COMMIT', 'ROLLBACK', 'BEGIN', 'WRITE')]
+            for i, k in enumerate(tc):
+                # a COMMIT that is immediately followed by ROLLBACK is a commit that itself failed
+                # (e.g. aborted by the progress handler): sqlite3 then rolls the transaction back
+                if k == 'COMMIT' and not (i + 1 < len(tc) and tc[i + 1] == 'ROLLBACK'):
+                    out.append(('commit-in-failed-call', 'COMMIT after the first write of a call that then failed'))
+                    break
         return out
 
     def check_readonly(self):
